@@ -100,15 +100,33 @@ var goLoopRe = regexp.MustCompile(`(?m)^(\s*)go ((?:a|assoc)\.(?:readLoop|writeL
 // the working tree on every run: the statements that start the association's
 // background loops are routed through vGo (a no-op in harness runs), so that native
 // replays are as sequential as the symbolic execution, which never runs goroutines.
+// Lock fields retyped to the rank-tracking wrappers of harness/vlib_sync.go (C20 lock hierarchy).
+var lockTypeRes = map[string][]struct {
+	re   *regexp.Regexp
+	repl string
+}{
+	"association.go": {{regexp.MustCompile(`(?m)^(\tlock\s+)sync\.RWMutex$`), "${1}vLkAssoc"}},
+	"stream.go": {
+		{regexp.MustCompile(`(?m)^(\tlock\s+)sync\.RWMutex$`), "${1}vLkStream"},
+		{regexp.MustCompile(`(?m)^(\twriteLock\s+)sync\.Mutex$`), "${1}vLkWrite"},
+	},
+}
+
 func patchedSources() map[string][]byte {
 	out := map[string][]byte{}
-	for _, f := range []string{"association.go"} {
+	for _, f := range []string{"association.go", "stream.go"} {
 		path := filepath.Join(repoDir, f)
 		b, err := os.ReadFile(path)
 		if err != nil {
 			continue
 		}
-		nb := goLoopRe.ReplaceAll(b, []byte("${1}vGo(${2})"))
+		nb := b
+		if f == "association.go" {
+			nb = goLoopRe.ReplaceAll(nb, []byte("${1}vGo(${2})"))
+		}
+		for _, r := range lockTypeRes[f] {
+			nb = r.re.ReplaceAll(nb, []byte(r.repl))
+		}
 		if string(nb) != string(b) {
 			out[path] = nb
 		}
@@ -424,7 +442,7 @@ func main() {
 		}
 	}
 	if opts.harnessBudget == 0 {
-		opts.harnessBudget = 4 * time.Minute
+		opts.harnessBudget = 8 * time.Minute
 		if tier == 1 {
 			opts.harnessBudget = 40 * time.Minute
 		}
@@ -495,6 +513,8 @@ type nativeCase struct {
 	Vector   []VecEntry `json:"vector"`
 	Realtime bool       `json:"realtime"`
 	Tier     int        `json:"tier"`
+	Hang     bool       `json:"hang"` // expected to block: run alone in its own process under a short watchdog
+	Skip     bool       `json:"skip"`
 }
 
 type nativeOut struct {
@@ -590,14 +610,14 @@ func replayFile(path string) int {
 		fmt.Fprintln(os.Stderr, err)
 		return 2
 	}
-	outs, log, err := runNative([]nativeCase{{d.Harness, d.Vector, true, d.Tier}}, allHarnessNames(pkg), "replay")
+	outs, log, err := runNative([]nativeCase{{Harness: d.Harness, Vector: d.Vector, Realtime: true, Tier: d.Tier, Hang: d.Kind == "blocked"}}, allHarnessNames(pkg), "replay")
 	if err != nil {
 		fmt.Fprintln(os.Stderr, err, log)
 		return 2
 	}
 	for _, o := range outs {
 		fmt.Printf("native replay of %s: outcome=%s msg=%s\n", d.Harness, o.Outcome, o.Msg)
-		if o.Outcome == "assert" || o.Outcome == "panic" {
+		if o.Outcome == "assert" || o.Outcome == "panic" || (d.Kind == "blocked" && o.Outcome == "hang") {
 			fmt.Printf("VIOLATION property=%s replay=%s\n", d.Property, path)
 			return 1
 		}
@@ -626,15 +646,17 @@ func finish(prop string, tier, seed int, partial bool, results []HarnessResult, 
 	for i := range results {
 		r := &results[i]
 		for j := range r.Validations {
-			cases = append(cases, nativeCase{r.Name, r.Validations[j].Vector, false, tier})
+			cases = append(cases, nativeCase{Harness: r.Name, Vector: r.Validations[j].Vector, Tier: tier})
 			refs = append(refs, caseRef{res: r, val: &r.Validations[j]})
 		}
 		for j := range r.Violations {
-			cases = append(cases, nativeCase{r.Name, r.Violations[j].Vector, true, tier})
+			blk := r.Violations[j].Kind == "blocked"
+			cases = append(cases, nativeCase{Harness: r.Name, Vector: r.Violations[j].Vector, Realtime: true, Tier: tier, Hang: blk, Skip: blk})
 			refs = append(refs, caseRef{res: r, viol: &r.Violations[j]})
 		}
 		for j := range r.Known {
-			cases = append(cases, nativeCase{r.Name, r.Known[j].Vector, true, tier})
+			blk := r.Known[j].Kind == "blocked"
+			cases = append(cases, nativeCase{Harness: r.Name, Vector: r.Known[j].Vector, Realtime: true, Tier: tier, Hang: blk, Skip: blk})
 			refs = append(refs, caseRef{res: r, viol: &r.Known[j], knwn: true})
 		}
 		if r.EngineError != "" {
@@ -655,6 +677,20 @@ func finish(prop string, tier, seed int, partial bool, results []HarnessResult, 
 			byIdx := map[int]nativeOut{}
 			for _, o := range outs {
 				byIdx[o.Idx] = o
+			}
+			// counterexamples that end in a call blocking forever are replayed one per process
+			for i, c := range cases {
+				if !c.Skip {
+					continue
+				}
+				c.Skip = false
+				o1, log1, err1 := runNative([]nativeCase{c}, names, prop+"-"+tierName+"-hang")
+				if err1 != nil || len(o1) != 1 {
+					fmt.Fprintf(os.Stderr, "native run of blocking case failed: %v\n%s\n", err1, tail(log1, 2000))
+					continue
+				}
+				o1[0].Idx = i
+				byIdx[i] = o1[0]
 			}
 			for i, ref := range refs {
 				o, ok := byIdx[i]
@@ -681,6 +717,9 @@ func finish(prop string, tier, seed int, partial bool, results []HarnessResult, 
 					}
 				case ref.viol != nil:
 					reproduced := o.Outcome == "assert" || o.Outcome == "panic"
+					if ref.viol.Kind == "blocked" {
+						reproduced = o.Outcome == "hang"
+					}
 					d := replayDoc{Tier: tier, Property: prop, Harness: ref.res.Name, Kind: ref.viol.Kind, Msg: ref.viol.Msg, Where: ref.viol.Where, Vector: ref.viol.Vector, Native: o.Outcome + ": " + o.Msg}
 					if ref.knwn {
 						what := ref.viol.Msg
